@@ -311,6 +311,16 @@ class CallGraph:
                         if m is not None and m in cands:
                             cands = [m]
                     self._add(fn, n, list(cands), "property")
+                elif isinstance(n, ast.Attribute) and isinstance(n.ctx, ast.Load) and isinstance(n.value, ast.Name) \
+                        and n.value.id in ("self", "cls") and fn.cls is not None:
+                    # a bound method taken as a value (`iter(self.get_next_token, None)`, `key=self.weight`, a table of
+                    # `self.parse_x`): whoever receives it may call it
+                    p = parent(n)
+                    if isinstance(p, ast.Call) and p.func is n:
+                        continue
+                    m = prog.method(fn.cls.name, n.attr)
+                    if m is not None and m.cls is not None and not any(d == "property" for d in m.decorators):
+                        self._add(fn, n, [m], "method-value")
             # implicit protocol edges
             self._implicit(fn, types)
 
